@@ -106,7 +106,7 @@ class Expansion(Harness):
 
     def cases(self, tier):
         out = []
-        specs = [("num", n, 0) for n in (1, 2, 3, 4)] + [("range", ln, off) for ln in (1, 2, 3, 4) for off in (0, 3)]
+        specs = [("num", n, 0) for n in (0, 1, 2, 3, 4)] + [("range", ln, off) for ln in (1, 2, 3, 4) for off in (0, 3)]
         for kind, n, off in specs:
             for prefix in (False, True):
                 out.append({"what": "markets", "kind": kind, "n": n, "off": off, "prefix": prefix})
@@ -135,6 +135,9 @@ class Expansion(Harness):
         if case["what"] == "markets":
             st["G1"] = self._group(case["kind"], case["n"], case["off"], case["prefix"], mbase)
             n_expected = case["n"]
+            if n_expected == 0:        # an empty group listed first: nobody trades there
+                st["A"]["markets"] = ["G2"]
+                st["B"]["markets"] = ["G2"]
         elif case["what"] == "agents":
             st["A"] = self._group(case["kind"], case["n"], case["off"], case["prefix"], abase)
             n_expected = case["n"]
@@ -158,7 +161,8 @@ class Expansion(Harness):
         g.require(len(sim.markets_group_name2market["G3"]) == 1 and len(sim.agents_group_name2agent["B"]) == 1,
                   "C18.group-size", "a group declaring neither a count nor a range must create exactly one entity")
         g.require(len(sim.markets_group_name2market["G2"]) == 2, "C18.group-size")
-        grp = sim.markets_group_name2market["G1"] if case["what"] != "agents" else sim.agents_group_name2agent["A"]
+        grp = sim.markets_group_name2market.get("G1", []) if case["what"] != "agents" else \
+            sim.agents_group_name2agent.get("A", [])
         if case["what"] == "markets":
             g.require(len(grp) == n_expected, "C18.group-size", f"{len(grp)} markets created, {n_expected} declared")
             ids = [m.market_id for m in sim.markets]
@@ -390,6 +394,20 @@ class ClassLookup(Harness):
             g.require(False, "C18.ambiguous-class-resolved")
         except AttributeError:
             pass
+        # a registered class whose name merely ends with another class name does not answer to that name
+        NoiseTrader = type("NoiseTrader", (pams.agents.Agent,), {})
+        ThinMarket = type("ThinMarket", (pams.Market,), {})
+        regs = [NoiseTrader, ThinMarket]
+        g.require(find_class("NoiseTrader", optional_class_list=regs) is NoiseTrader, "C18.user-class-lookup")
+        g.require(find_class("Market", optional_class_list=regs) is pams.Market, "C18.class-lookup",
+                  "Market must resolve to pams.Market although a registered class is called ThinMarket")
+        g.require(find_class("Agent", optional_class_list=regs) is pams.agents.Agent, "C18.class-lookup")
+        for bad in ("Trader", "oiseTrader", "hinMarket"):
+            try:
+                got = find_class(bad, optional_class_list=regs)
+                g.require(False, "C18.unknown-class-resolved", f"{bad} resolved to {got}")
+            except AttributeError:
+                pass
         # the same through the runner's registration: two different user classes that carry one name (made by a
         # factory) cannot both be meant by a configuration entry -- the name must not resolve silently to one of them
         from pams.runners import SequentialRunner
